@@ -144,6 +144,8 @@ func (w *World) checkC03(n *Node, c *commitRec) {
 					err = fmt.Errorf("panic: %v", r)
 				}
 			}()
+			w.ys.noPark++ // oracle code running on a library goroutine (inside the commit callback)
+			defer func() { w.ys.noPark-- }()
 			err = j.lh.ValidateBlockConsensus(context.Background(), c.block, c.proof, prevB, prevP, false)
 		}()
 		w.probe("c03-cross-validated")
@@ -278,6 +280,20 @@ func (w *World) checkQuiescentInvariants() {
 			// the view may already have advanced within the same step only through registrations, which are checked separately
 		}
 		n.lastSample, n.lastSampleEpoch = cur, n.epoch
+		// snapshots taken by a concurrent consumer thread: the state only moves forward, so a snapshot lies between the
+		// state at the moment the call was started and the state at the first quiescent point after it returned
+		for _, r := range n.samples {
+			if !r.done || r.checked || r.epoch != n.epoch {
+				continue
+			}
+			r.checked = true
+			w.probe("api-snapshot-judged")
+			if r.val.less(r.pre) {
+				w.violate("C13", "snapshot-older-than-state-at-call", "n%d: a consumer thread called State().HeightView() when the node was at (h%d,v%d) and got (h%d,v%d)", n.idx, r.pre.h, r.pre.v, r.val.h, r.val.v)
+			} else if cur.less(r.val) {
+				w.violate("C13", "snapshot-ahead-of-state", "n%d: a consumer thread got (h%d,v%d) from State().HeightView() but the node is only at (h%d,v%d) after the call returned", n.idx, r.val.h, r.val.v, cur.h, cur.v)
+			}
+		}
 	}
 	w.checkGates()
 	w.checkSyncs()
@@ -306,6 +322,27 @@ func (w *World) onSendObserved(n *Node, s *SentRec) {
 	}
 	if w.checks("C10") {
 		w.checkC10(n, s, m, h, v)
+	}
+	if w.checks("C18") && m.Kind == KVC {
+		// in the middle of real protocol traffic too: the vote for view v goes to the member at (v mod n), whatever the
+		// node has processed before (the committee order is a fixed input of the term)
+		c := w.Committee(h)
+		target := c[v%uint64(len(c))].Id
+		w.probe("leader-judged")
+		if len(s.to) != 1 || s.to[0] != w.keys.IdxOf(target) {
+			w.violate("C18", "timeout-vote-destination", "n=%d: the vote of n%d for (h%d, view %d) went to %v, the member at (view mod n)=%d is %s (n%d)", len(c), n.idx, h, v, s.to, v%uint64(len(c)), string(target), w.keys.IdxOf(target))
+		}
+	}
+	if w.checks("C18") && (m.Kind == KPP || m.Kind == KNV) && w.inCommittee(h, n.id) {
+		c := w.Committee(h)
+		pv := m.Ref.V
+		if m.Kind == KNV {
+			pv = m.NVV
+		}
+		w.probe("leader-judged")
+		if !c[pv%uint64(len(c))].Id.Equal(n.id) {
+			w.violate("C18", "proposal-by-non-leader", "n=%d: n%d proposed for (h%d, view %d) although the member at (view mod n)=%d is %s", len(c), n.idx, h, pv, pv%uint64(len(c)), string(c[pv%uint64(len(c))].Id))
+		}
 	}
 	if w.checks("C14") {
 		w.checkSyncedRoundNotLed(n, s)
@@ -524,7 +561,10 @@ func (w *World) checkC09(n *Node, s *SentRec, m *Msg, h, v uint64) {
 			w.violate("C09", "nv-no-quorum", "n%d sent NEW_VIEW (h%d,v%d) with votes of weight %d < %d", n.idx, h, v, w.weightOf(h, ids), q)
 			return
 		}
-		if stored, ok := n.st.inner.GetViewChangeMessages(primitives.BlockHeight(h), primitives.View(v)); ok && len(stored) != len(m.Votes) {
+		w.ys.noPark++
+		stored, ok := n.st.inner.GetViewChangeMessages(primitives.BlockHeight(h), primitives.View(v))
+		w.ys.noPark--
+		if ok && len(stored) != len(m.Votes) {
 			w.violate("C09", "nv-votes-not-all-counted", "n%d sent NEW_VIEW (h%d,v%d) with %d votes but had stored %d", n.idx, h, v, len(m.Votes), len(stored))
 			return
 		}
@@ -648,6 +688,22 @@ func (w *World) onStore(n *Node, kind string, msg interface{}, ok bool) {
 	}
 	if !own && w.checks("C08") {
 		w.checkC08Store(n, k, h, v, hash, sender, sig)
+	}
+	if !own && w.checks("C18") && h == n.height() {
+		c := w.Committee(h)
+		ld := c[v%uint64(len(c))].Id
+		switch k {
+		case KPP: // a foreign proposal is accepted only from the member at (view mod n)
+			w.probe("leader-judged")
+			if !ld.Equal(sender) {
+				w.violate("C18", "pp-leader-mismatch", "n=%d: n%d stored a proposal for (h%d, view %d) from %s, the member at (view mod n)=%d is %s", len(c), n.idx, h, v, string(sender), v%uint64(len(c)), string(ld))
+			}
+		case KVC: // a vote is counted only by the member at (view mod n)
+			w.probe("leader-judged")
+			if !ld.Equal(n.id) {
+				w.violate("C18", "vc-leader-mismatch", "n=%d: n%d stored a vote for (h%d, view %d) although the member at (view mod n)=%d is %s", len(c), n.idx, h, v, v%uint64(len(c)), string(ld))
+			}
+		}
 	}
 }
 
@@ -837,6 +893,15 @@ func (w *World) postDeliver(n *Node, d *DeliveredRec) {
 			}
 		} else if v < ps.hv.v {
 			w.violate("C08", "inauthentic-influences/NV/stale-view", "n%d (h%d,v%d) changed state on a stale NEW_VIEW for view %d", n.idx, ps.hv.h, ps.hv.v, v)
+		} else {
+			// the votes embedded in a NEW_VIEW the node acted upon were counted toward its quorum: each of them is a
+			// VIEW_CHANGE that influenced the node, and a prepared proof inside one of them counted
+			for _, vt := range m.Votes {
+				if ok, why := w.refVote(vt, h, v); !ok {
+					w.violate("C08", "inauthentic-influences/NV-vote/"+authClass(why), "n%d (h%d,v%d) acted (%d effects) on %s whose embedded vote of %s does not count: %s", n.idx, ps.hv.h, ps.hv.v, effects, m.Short(), string(vt.Sender.Id), why)
+					break
+				}
+			}
 		}
 	}
 	if w.checks("C11") && d.honest && d.origin >= 0 && !w.isByz(d.origin) {
